@@ -217,19 +217,25 @@ Theorem C01_tag_stripping_source_is_model : forall data,
 Proof. exact (fun data => conj (gen_strip_sign1 data) (conj (gen_strip_sign data) (conj (gen_strip_mac0 data) (conj (gen_strip_mac data) (conj (gen_strip_enc0 data) (gen_strip_enc data)))))). Qed.
 Print Assumptions C01_tag_stripping_source_is_model.
 
-(* ---- one message object over a history (Model/MsgObj.v, tied to the implementation by the stream objhist): in ANY state
+(* ---- one message object of the five single-key kinds over a history (Model/MsgObj.v, tied to the implementation by the stream objhist; COSE_Mac and COSE_Encrypt with their recipient lists): in ANY state
    of the object, a produce call followed by MarshalCBOR is the functional produce of the theorems above applied to the
    exported fields as they are at that moment; on a fresh object, UnmarshalCBOR followed by Verify / Decrypt is the
    functional consume, and the exported fields afterwards are the view it returns. The round-trip theorems above
    therefore hold for every produce call of every history. *)
 Theorem C01_object_produce_is_functional : forall k o p ext draw, single k = true ->
-  produce_then_marshal k o p ext draw = prod_out (functional_produce k p (o_prot o) (o_unprot o) (o_payload o) ext draw).
+  produce_then_marshal k o p ext draw = prod_out (functional_produce k p (o_prot o) (o_unprot o) (o_payload o) ext draw (o_recips o)).
 Proof. exact produce_refines. Qed.
 Print Assumptions C01_object_produce_is_functional.
 
 Theorem C01_object_consume_is_functional : forall p data ext,
   view_out (sign1_consume false (pr_sig p) data ext) (decode_then_consume KSign1 p data ext)
   /\ view_out (mac0_consume false (pr_mac p) data ext) (decode_then_consume KMac0 p data ext)
-  /\ view_out (enc0_consume false (pr_enc p) data ext) (decode_then_consume KEnc0 p data ext).
-Proof. intros p data ext. exact (conj (consume_refines_sign1 p data ext) (conj (consume_refines_mac0 p data ext) (consume_refines_enc0 p data ext))). Qed.
+  /\ view_out (enc0_consume false (pr_enc p) data ext) (decode_then_consume KEnc0 p data ext)
+  /\ view_out_r (mac_consume false (pr_mac p) data ext) (decode_then_consume KMac p data ext)
+  /\ view_out_r (enc_consume false (pr_enc p) data ext) (decode_then_consume KEnc p data ext).
+Proof.
+  intros p data ext.
+  exact (conj (consume_refines_sign1 p data ext) (conj (consume_refines_mac0 p data ext) (conj (consume_refines_enc0 p data ext)
+        (conj (consume_refines_mac p data ext) (consume_refines_enc p data ext))))).
+Qed.
 Print Assumptions C01_object_consume_is_functional.
